@@ -941,4 +941,67 @@ theorem parse_rel {g g' : Grammar} (hx : Ext g g' ins p k) :
   | zero => intro id s s' hs; exact ⟨⟨.fuel, hs⟩, fun _ h => by simp [parse] at h⟩
   | succ n ih => exact nodeParse_rel hx ih n
 
+
+/-! ## the decidable side conditions imply the hypotheses -/
+
+theorem tokLen_none_of_rows {g : Grammar} (h : rowsOkB g = true) {t q : Nat} (hq : g.input.size < q) :
+    tokLen g t q = none := by
+  unfold tokLen
+  cases ht : g.toks[t]? with
+  | none => rfl
+  | some row =>
+    simp only
+    have hmem : row ∈ g.toks := Array.mem_of_getElem? ht
+    unfold rowsOkB at h
+    rw [Array.all_eq_true'] at h
+    have := h row hmem
+    simp only [decide_eq_true_eq] at this
+    rw [Array.getElem?_eq_none (by omega)]
+    rfl
+
+theorem tokLen_none_of_size {g : Grammar} {t q : Nat} (ht : g.toks.size ≤ t) : tokLen g t q = none := by
+  unfold tokLen
+  rw [Array.getElem?_eq_none ht]
+
+theorem tokCompat_of_check {g g' : Grammar} (hc : tokCompatB g g' p k = true) (hr : rowsOkB g = true)
+    (hr' : rowsOkB g' = true) (hsz : g'.input.size = g.input.size + k) (hp : p ≤ g.input.size) :
+    TokCompat g g' p k := by
+  intro t q
+  by_cases hq : q ≤ g.input.size
+  · by_cases ht : t < max g.toks.size g'.toks.size
+    · unfold tokCompatB at hc
+      rw [List.all_eq_true] at hc
+      have h1 := hc t (List.mem_range.mpr ht)
+      rw [List.all_eq_true] at h1
+      have h2 := h1 q (List.mem_range.mpr (by omega))
+      unfold tokCompatAt at h2
+      rw [Bool.and_eq_true, beq_iff_eq] at h2
+      refine ⟨h2.1, fun len hl hqp => ?_⟩
+      have h3 := h2.2
+      rw [hl] at h3
+      simp only [Bool.or_eq_true, decide_eq_true_eq] at h3
+      omega
+    · have a : tokLen g t q = none := tokLen_none_of_size (by omega)
+      have b : tokLen g' t (sh p k q) = none := tokLen_none_of_size (by omega)
+      rw [a, b]; exact ⟨rfl, fun _ h => by simp at h⟩
+  · have a : tokLen g t q = none := tokLen_none_of_rows hr (by omega)
+    have b : tokLen g' t (sh p k q) = none := tokLen_none_of_rows hr' (by unfold sh; split <;> omega)
+    rw [a, b]; exact ⟨rfl, fun _ h => by simp at h⟩
+
+theorem modes_of_check {g : Grammar} (h : modesSkipB g ins = true) (id : Nat) (nd : Node)
+    (hn : g.nodes[id]? = some nd) : Node.skipsAll ins nd = true := by
+  unfold modesSkipB at h
+  rw [Array.all_eq_true'] at h
+  exact h nd (Array.mem_of_getElem? hn)
+
+theorem ext_of_check {g : Grammar} {p : Nat} {ins : List Char} {toks' : Array (Array (Option Nat))}
+    {skipws : Bool} {ws : List Char} (h : gapExtOkB g p ins toks' skipws ws = true) :
+    Ext g (g.ext p ins toks') ins p ins.length ∧ skipws = true ∧ (∀ c ∈ ins, c ∈ ws) := by
+  unfold gapExtOkB at h
+  simp only [Bool.and_eq_true, Bool.not_eq_true', decide_eq_true_eq, List.all_eq_true] at h
+  obtain ⟨⟨⟨⟨⟨⟨⟨hm, hp⟩, hs⟩, hw⟩, hmo⟩, hr⟩, hr'⟩, hc⟩ := h
+  have hin := extendGap_inputExt g.input p ins hp
+  refine ⟨⟨rfl, rfl, hm, hm, hin, ?_, modes_of_check hmo⟩, hs, hw⟩
+  exact tokCompat_of_check hc hr hr' hin.size hp
+
 end Peg
